@@ -165,9 +165,10 @@ func run(start time.Time) (code int) {
 		return 0
 	}
 	x := NewExec(P, *flagTier)
-	timeout := 10
+	// per-obligation solver limit; only an obligation that fails to discharge ever uses it up
+	timeout := 60
 	if *flagTier == "thorough" {
-		timeout = 120
+		timeout = 300
 	}
 	if *flagTimeout > 0 {
 		timeout = *flagTimeout
@@ -235,7 +236,7 @@ func run(start time.Time) (code int) {
 		}
 		active = append(active, o)
 	}
-	x.dischargeAll(active, work, timeout, 6)
+	x.dischargeAll(active, work, timeout, 7)
 
 	known := loadKnown(*flagKnown)
 	ev := x.report(prop, active, reports, known, start, work, timeout, skipped)
@@ -259,6 +260,9 @@ func quickSkipped(o *Obligation) bool {
 	}
 	lab := strings.TrimSuffix(o.Name[i+1:], "]")
 	if j := strings.Index(lab, "]"); j >= 0 {
+		lab = lab[:j]
+	}
+	if j := strings.Index(lab, "@"); j >= 0 {
 		lab = lab[:j]
 	}
 	if fc.QuickSkip[lab] {
@@ -331,17 +335,15 @@ func (x *Exec) verifyFunction(fn *ssa.Function, fc *FuncContract, prop string, r
 		fr.bindings = append(fr.bindings, t)
 	}
 	// ghost variables
-	for _, gcl := range fc.Ghosts {
-		tv, err := typesEval(x.P, fr, gcl.Type)
-		if err != nil {
-			cfail("%s: ghost type %q: %v", x.P.posStr(gcl.Pos), gcl.Type, err)
-		}
-		fr.ghostTypes[gcl.Ghost] = tv
-	}
+	fr.declareGhosts()
 	fr.entry = st.clone()
 	for _, gcl := range fc.Ghosts {
+		want := x.ghostSort(fr.ghostTypes[gcl.Ghost])
+		if gcl.Text == "" {
+			st.ghost[gcl.Ghost] = x.c.Fresh("ghost_"+gcl.Ghost, want)
+			continue
+		}
 		v := fr.evalClauseAt(gcl, st, nil, nil)
-		want := x.ti.sortOf(fr.ghostTypes[gcl.Ghost])
 		if v.sort != want {
 			cfail("%s: ghost %s initial value has sort %s, want %s", x.P.posStr(gcl.Pos), gcl.Ghost, v.sort, want)
 		}
@@ -367,14 +369,40 @@ func (x *Exec) verifyFunction(fn *ssa.Function, fc *FuncContract, prop string, r
 	default:
 		bindResults(extra, fn.Signature, c.mk("tuple", "Tuple", 0, "", results, nil, nil))
 	}
-	for i, e := range fc.Ensures {
-		t := fr.evalClauseAt(e, out, nil, extra)
-		lab := e.Label
-		if lab == "" {
-			lab = fmt.Sprintf("%d", i+1)
+	// one obligation per ensures clause and return site (smaller queries, precise blame)
+	sort.SliceStable(fr.rets, func(i, j int) bool { return fr.rets[i].pos < fr.rets[j].pos })
+	for ri, r := range fr.rets {
+		rextra := map[string]*Term{}
+		switch len(r.results) {
+		case 0:
+		case 1:
+			bindResults(rextra, fn.Signature, r.results[0])
+		default:
+			bindResults(rextra, fn.Signature, c.mk("tuple", "Tuple", 0, "", r.results, nil, nil))
 		}
-		fr.oblige("ensures", lab, e.Pos, og, t, e.Text)
+		for i, e := range fc.Ensures {
+			t := fr.evalClauseAt(e, r.st, nil, rextra)
+			lab := e.Label
+			if lab == "" {
+				lab = fmt.Sprintf("%d", i+1)
+			}
+			if len(fr.rets) > 1 {
+				lab += fmt.Sprintf("@return%d", ri+1)
+			}
+			if len(fc.Cases) > 0 && !t.isTrue() {
+				var cs []*Term
+				for ci, cc := range fc.Cases {
+					ct := fr.evalClauseAt(cc, r.st, nil, rextra)
+					cs = append(cs, ct)
+					fr.oblige("ensures", fmt.Sprintf("%s/case%d", lab, ci+1), e.Pos, c.And(r.guard, ct), t, e.Text+"   [case: "+cc.Text+"]")
+				}
+				fr.oblige("ensures", lab+"/otherwise", e.Pos, c.And(r.guard, c.Not(c.Or(cs...))), t, e.Text+"   [none of the cases]")
+				continue
+			}
+			fr.oblige("ensures", lab, e.Pos, r.guard, t, e.Text)
+		}
 	}
+	_ = extra
 	if fc.HasAssigns {
 		var ts []target
 		for _, a := range fc.Assigns {
